@@ -5,6 +5,9 @@
 -/
 import Mathlib.Data.Nat.Choose.Basic
 import Mathlib.Data.Finset.Powerset
+import Mathlib.Data.Multiset.Basic
+import Mathlib.Algebra.BigOperators.Group.Finset.Basic
+import Mathlib.Algebra.BigOperators.Group.Multiset.Basic
 import Mathlib.Tactic
 
 namespace Batchie
@@ -66,6 +69,39 @@ theorem div_succ (i t : ℤ) (_hi : 0 ≤ i) (ht : 1 ≤ t) :
     · have key := (Int.ediv_emod_unique tpos (a := i + 1) (q := i / t) (r := i % t + 1)).mpr
         ⟨by omega, by omega, by omega⟩
       exact key.1
+
+/-- C16: a batch of m*k single-sample plates in which every sample has at most k plates and at most one
+    sample is incomplete (strictly between 0 and k) gives every sample zero or exactly k plates.
+    `l` is the multiset of the batch plates' sample ids; `l.count s` is b(s). -/
+theorem batch_complete (l : Multiset ℕ) (k m : ℕ)
+    (hlen : Multiset.card l = m * k) (hle : ∀ s, l.count s ≤ k)
+    (huniq : ∀ s s', 0 < l.count s → l.count s < k → 0 < l.count s' → l.count s' < k → s = s') :
+    ∀ s, l.count s = 0 ∨ l.count s = k := by
+  intro s
+  by_contra hcon0
+  have hcon := not_or.mp hcon0
+  have hs1 : 0 < l.count s := Nat.pos_of_ne_zero hcon.1
+  have hs2 : l.count s < k := lt_of_le_of_ne (hle s) hcon.2
+  have hmem : s ∈ l.toFinset := by
+    rw [Multiset.mem_toFinset]; exact Multiset.count_pos.mp hs1
+  have hsum := Multiset.toFinset_sum_count_eq l
+  rw [← Finset.add_sum_erase _ _ hmem] at hsum
+  have hdvd : k ∣ ∑ a ∈ l.toFinset.erase s, l.count a := by
+    apply Finset.dvd_sum
+    intro a ha
+    have hne : a ≠ s := (Finset.mem_erase.mp ha).1
+    by_cases h0 : l.count a = 0
+    · rw [h0]; exact dvd_zero k
+    · have : l.count a = k := by
+        by_contra hk'
+        exact hne (huniq a s (Nat.pos_of_ne_zero h0) (lt_of_le_of_ne (hle a) hk') hs1 hs2)
+      rw [this]
+  obtain ⟨c, hc⟩ := hdvd
+  rw [hc, hlen] at hsum
+  have h1 : k ∣ l.count s + k * c := by rw [hsum]; exact Dvd.intro_left m rfl
+  have h2 : k ∣ l.count s := (Nat.dvd_add_left (Dvd.intro c rfl)).mp h1
+  have := Nat.le_of_dvd hs1 h2
+  omega
 
 /-! ### C15: the combinadic rank is strictly monotone (hence injective) and bounded by C(n,k);
     with equal finite cardinalities this makes unranking a bijection. -/
